@@ -104,6 +104,8 @@ impl Mix {
             "C29" => {
                 m.raw += 4;
                 m.wild = m.wild.max(8);
+                m.crypto += 2;
+                m.wide += 1;
             }
             "C30" => {
                 m.call += 4;
@@ -220,12 +222,15 @@ impl<'a> PGen<'a> {
 
     /// Boundary-sized operand: around 2^64, 2^63, 2^32 and the end of VM memory.
     fn huge(&mut self) -> u64 {
-        match self.g.below(7) {
+        match self.g.below(9) {
             0 | 1 => u64::MAX - self.g.below(9),
             2 => 1u64 << 63,
             3 => (1u64 << 32) - 1 + self.g.below(3),
             4 => (1u64 << 26) - self.g.below(9),
             5 => (1u64 << 26) + self.g.below(9),
+            // sizes a host could be asked to allocate
+            6 => 1u64 << 40,
+            7 => 1u64 << 34,
             _ => 1u64 << 62,
         }
     }
@@ -954,14 +959,26 @@ impl<'a> PGen<'a> {
         }
         match self.g.below(if wild { 9 } else { 3 }) {
             2 | 6 | 7 => {
-                // alt_bn128 point operations on (mostly zero) points of the heap buffer:
-                // curve 0, operation add (0) or mul (1); all-zero points give the point at infinity
-                emit!(self, ri18(O::MOVI, C, self.g.below(2) as u32));
+                // alt_bn128 point operations on points of the heap buffer: curve 0, operation
+                // add (0) or mul (1). Half of the time the operands are made valid first: the
+                // generator G1 = (1, 2) twice (add) or G1 and a small scalar (mul); otherwise
+                // whatever the buffer holds (all-zero = the point at infinity).
                 emit!(self, ri12(O::ADDI, D, HEAP, 320));
+                if self.g.bool() {
+                    emit!(self, ri18(O::MCLI, D, 128));
+                    emit!(self, ri12(O::SB, D, ONE, 31));
+                    emit!(self, ri18(O::MOVI, C, 2));
+                    emit!(self, ri12(O::SB, D, C, 63));
+                    emit!(self, ri12(O::SB, D, if self.g.bool() { ONE } else { C }, 95));
+                    emit!(self, ri12(O::SB, D, C, 127));
+                }
+                emit!(self, ri18(O::MOVI, C, self.g.below(2) as u32));
                 emit!(self, r4(O::ECOP, B, ZERO, C, D));
             }
             8 => {
-                emit!(self, ri18(O::MOVI, C, self.g.below(3) as u32));
+                // pairing check over 0..2 (all-zero = infinity) elements, or a boundary-sized count
+                let n = if self.g.bool() { self.wild_len(3) } else { self.g.below(3) };
+                self.load_const(C, n);
                 emit!(self, ri12(O::ADDI, D, HEAP, 320));
                 let dd = self.nreg();
                 emit!(self, r4(O::EPAR, dd, ZERO, C, D));
@@ -977,10 +994,24 @@ impl<'a> PGen<'a> {
 
     fn wide(&mut self) {
         let wild = self.wild();
-        let op = *self.g.pick(&[O::WDCM, O::WQCM, O::WDOP, O::WQOP, O::WDML, O::WQML, O::WDDV, O::WQDV]);
+        let op = *self.g.pick(&[
+            O::WDCM, O::WQCM, O::WDOP, O::WQOP, O::WDML, O::WQML, O::WDDV, O::WQDV, O::WDMD, O::WQMD, O::WDAM, O::WQAM, O::WDMM, O::WQMM,
+        ]);
         emit!(self, ri12(O::ADDI, A, HEAP, 256));
         emit!(self, ri12(O::ADDI, B, HEAP, 288));
         emit!(self, ri12(O::ADDI, C, STK, 32));
+        if matches!(op, O::WDMD | O::WQMD | O::WDAM | O::WQAM | O::WDMM | O::WQMM) {
+            // three operands by reference; the third (divisor / modulus) is made non-zero most of the time
+            emit!(self, ri12(O::ADDI, D, STK, 64));
+            if self.g.below(4) != 0 {
+                let v = self.sreg();
+                emit!(self, ri12(O::SB, D, ONE, 31));
+                emit!(self, ri12(O::SW, D, v, 1));
+            }
+            let dst = if wild && self.g.below(4) == 0 { self.foreign_addr(A); A } else { A };
+            emit!(self, r4(op, dst, B, C, D));
+            return;
+        }
         let d = if matches!(op, O::WDCM | O::WQCM) { self.nreg() } else { A };
         emit!(self, r4(op, d, B, C, if wild { self.g.below(64) as u8 } else { 0 }));
     }
